@@ -8,7 +8,7 @@ import itertools
 from sa.cfg import CFG, no_exc
 from sa.effects import write_sites
 from sa.guards import FactFlow
-from sa.loader import AnalysisError, FuncDef, Repo, call_name, last_attr, parent, qualname_of, unparse, walk_body
+from sa.loader import AnalysisError, FuncDef, Repo, ancestors, call_name, last_attr, parent, qualname_of, unparse, walk_body
 from sa.report import Check, node_text
 from sa.resolve import CallGraph, ClassIndex
 from sa.tables import Evaluator, NotStatic
@@ -313,3 +313,98 @@ def arg_normalise(check: Check, repo: Repo) -> None:
     check.ob(rule, sv, "sort_value_node handles objects and lists recursively", ok and rec_list and rec_field and uses_sort_field,
              f"isinstance arms {sorted(tested)}; list recursion {rec_list}; field recursion {rec_field}; fields sorted {uses_sort_field}")
     check.floor(rule, 2, "print_ast calls in the rule")
+
+
+# -- a pair recorded as compared is compared in full ---------------------------------------------------
+
+
+def recorded_means_compared(check: Check, repo: Repo, rule: str = "RECORDED-COMPARED") -> None:
+    check.rule(
+        rule,
+        "in the two memoising collectors, once `compared_*.add(...)` has recorded a pair, the only early "
+        "returns are 'the fragment does not exist' (a test of the value context.get_fragment returned) and "
+        "'both sides are the same field map' (an identity test): any other shortcut - e.g. returning when a "
+        "fragment selects no direct fields - skips the comparison of the nested spreads (G)/(H) while the "
+        "pair stays recorded as done, so the conflict is never looked for again",
+    )
+    for fname in ("collect_conflicts_between_fields_and_fragment", "collect_conflicts_between_fragments"):
+        fn = repo.func(MOD, fname)
+        adds = [c for c in walk_body(fn) if isinstance(c, ast.Call) and last_attr(c) == "add" and "compared_" in unparse(c.func)]
+        if len(adds) != 1:
+            raise AnalysisError(f"{fname}: expected one memo add, found {len(adds)}")
+        add_line = adds[0].lineno
+        frag_names = {
+            t.id
+            for s in walk_body(fn)
+            if isinstance(s, ast.Assign) and isinstance(s.value, ast.Call) and last_attr(s.value) == "get_fragment"
+            for t in s.targets
+            if isinstance(t, ast.Name)
+        }
+        n = 0
+        for r in walk_body(fn):
+            if not isinstance(r, ast.Return) or r.lineno < add_line:
+                continue
+            n += 1
+            guard = next((a for a in ancestors(r) if isinstance(a, ast.If)), None)
+            ok, why = False, "unconditional return after the pair was recorded"
+            if guard is not None:
+                names = {x.id for x in ast.walk(guard.test) if isinstance(x, ast.Name)}
+                identity = isinstance(guard.test, ast.Compare) and len(guard.test.ops) == 1 and isinstance(guard.test.ops[0], ast.Is) \
+                    and all(isinstance(x, ast.Name) for x in (guard.test.left, guard.test.comparators[0]))
+                if names and names <= frag_names:
+                    ok, why = True, f"fragment lookup failed: `{unparse(guard.test)}`"
+                elif identity:
+                    ok, why = True, f"same object on both sides: `{unparse(guard.test)}`"
+                else:
+                    why = f"`if {unparse(guard.test)}: return` abandons a comparison that is already recorded as done"
+            check.ob(rule, r, f"{fname}: early return after the memo add (line +{r.lineno - fn.lineno})", ok, why)
+        # the phases exist after the add
+        later_calls = {last_attr(c) for c in walk_body(fn) if isinstance(c, ast.Call) and c.lineno > add_line}
+        need = {"collect_conflicts_between", fname}
+        check.ob(rule, fn, f"{fname}: direct comparison and recursion into nested spreads follow the add", need <= later_calls,
+                 "phases present" if need <= later_calls else f"missing after the add: {sorted(need - later_calls)}")
+
+
+def all_pairs(check: Check, repo: Repo, rule: str = "ALL-PAIRS") -> None:
+    check.rule(
+        rule,
+        "collect_conflicts_within compares every unordered pair of the fields that share a response name: "
+        "find_conflict is called inside two nested loops where the inner one runs over the rest of the same "
+        "list after the outer position (`fields[i + 1:]` / range(i + 1, n)), or inside one loop over "
+        "combinations(fields, 2). 'Can be merged' is not transitive (fields of disjoint object parents are "
+        "never in conflict with a third), so comparing only against the first field misses conflicts",
+    )
+    fn = repo.func(MOD, "collect_conflicts_within")
+    calls = [c for c in walk_body(fn) if isinstance(c, ast.Call) and last_attr(c) == "find_conflict"]
+    if not calls:
+        raise AnalysisError("collect_conflicts_within: find_conflict call not found")
+    for c in calls:
+        loops = [a for a in ancestors(c) if isinstance(a, ast.For)]
+        ok, why = False, "find_conflict is not inside a pair enumeration"
+        for lp in loops:
+            it = lp.iter
+            if isinstance(it, ast.Call) and last_attr(it) == "combinations" and len(it.args) == 2 and getattr(it.args[1], "value", None) == 2:
+                ok, why = True, f"for ... in {unparse(it)}"
+        if not ok and len(loops) >= 2:
+            inner, outer = loops[0], loops[1]
+            o_it = outer.iter
+            idx = seq = None
+            if isinstance(o_it, ast.Call) and last_attr(o_it) == "enumerate" and o_it.args and isinstance(outer.target, ast.Tuple):
+                idx, seq = unparse(outer.target.elts[0]), unparse(o_it.args[0])
+            elif isinstance(o_it, ast.Call) and last_attr(o_it) == "range" and isinstance(outer.target, ast.Name):
+                idx = outer.target.id
+                lens = [x for x in ast.walk(o_it) if isinstance(x, ast.Call) and last_attr(x) == "len"]
+                seq = unparse(lens[0].args[0]) if lens else None
+            i_it = inner.iter
+            if idx and seq:
+                if isinstance(i_it, ast.Subscript) and isinstance(i_it.slice, ast.Slice) and unparse(i_it.value) == seq \
+                        and i_it.slice.lower is not None and unparse(i_it.slice.lower).replace(" ", "") in (f"{idx}+1", f"1+{idx}") \
+                        and i_it.slice.upper is None and i_it.slice.step is None:
+                    ok, why = True, f"outer {unparse(o_it)}, inner {unparse(i_it)}"
+                elif isinstance(i_it, ast.Call) and last_attr(i_it) == "range" and i_it.args and unparse(i_it.args[0]).replace(" ", "") in (f"{idx}+1", f"1+{idx}"):
+                    ok, why = True, f"outer {unparse(o_it)}, inner {unparse(i_it)}"
+            if not ok:
+                why = f"loops `{unparse(outer.iter)}` / `{unparse(inner.iter)}` do not enumerate every pair of one list"
+        elif not ok and len(loops) == 1:
+            why = f"a single loop over `{unparse(loops[0].iter)}` compares one fixed field with the others, not all pairs"
+        check.ob(rule, c, "collect_conflicts_within: find_conflict over all pairs", ok, why)
